@@ -32,6 +32,12 @@ type c12Scenario struct {
 	Op     sess.Op         `json:"op"`
 	Mode   string          `json:"mode"`             // from into jsonwtr xmlwtr
 	Extend bool            `json:"extend,omitempty"` // target root (and every descendant) sits inside a pass-through nodeutil.Extend
+	// Trigger installs a node.Trigger on the target's browser (the trigger table is
+	// consulted before the node on begin, after it on end); TrigFail makes its
+	// n-th call fail (-1: never). Triggers are not nodes: with a failing trigger
+	// only pairing, audience and no-panic are demanded.
+	Trigger  bool `json:"trigger,omitempty"`
+	TrigFail int  `json:"trig_fail,omitempty"`
 	Faults []simnode.Fault `json:"faults,omitempty"`
 }
 
@@ -42,7 +48,9 @@ func (sc *c12Scenario) bind() error {
 }
 
 type c12Exec struct {
-	ss      *simnode.Session
+	trigCalls int    // calls the trigger saw during the operation
+	trigFault string // "trigger-OnBegin" / "trigger-OnEnd" when the trigger failed
+	ss        *simnode.Session
 	res     sess.Result
 	start   int // first event of the operation proper
 	log     *kit.Log
@@ -61,6 +69,25 @@ func c12Run(env *sess.Env, sc *c12Scenario, faults []simnode.Fault) c12Exec {
 	}
 	ex := c12Exec{ss: ss, log: log}
 	ss.OnOpStart = func() { ex.start = len(ss.Events) }
+	if sc.Trigger {
+		exp := &ex
+		ss.OnBrowser = func(b interface{}) {
+			call := func(what string) error {
+				n := exp.trigCalls
+				exp.trigCalls++
+				log.Add("trigger %s #%d", what, n)
+				if sc.TrigFail > 0 && n == sc.TrigFail-1 {
+					exp.trigFault = "trigger-" + what
+					return simnode.ErrInjected
+				}
+				return nil
+			}
+			b.(*node.Browser).Triggers.Install(&node.Trigger{
+				OnBegin: func(t *node.Trigger, r node.NodeRequest) error { return call("OnBegin") },
+				OnEnd:   func(t *node.Trigger, r node.NodeRequest) error { return call("OnEnd") },
+			})
+		}
+	}
 	if sc.Extend {
 		// the library's own delegating node between the editor and the recording
 		// wrapper: whatever it fails to forward shows up as a pairing violation
@@ -204,6 +231,9 @@ func c12Oracle(ex *c12Exec, expectBubble bool) []c12Finding {
 	if faultEv != nil && faultEv.Call == "Choose" && faultEv.Side == "T" {
 		faultDesc = "Choose@target/error"
 	}
+	if faultEv == nil && ex.trigFault != "" {
+		faultDesc = ex.trigFault
+	}
 	add := func(oracle, what, detail string) {
 		out = append(out, c12Finding{oracle: oracle, key: fmt.Sprintf("%s:%s:fault=%s", oracle, what, faultDesc), detail: detail})
 	}
@@ -264,26 +294,36 @@ func c12Oracle(ex *c12Exec, expectBubble bool) []c12Finding {
 		}
 	}
 
-	// 2b. completeness of bubbling (fault-free part): after a root begin, every ancestor is told.
-	if expectBubble {
+	// 2b. completeness of bubbling: after a root begin every ancestor is told,
+	// in whatever order, unless a bubbled BeginEdit of that edit failed (the
+	// remaining ancestors are then rightly not told) or a trigger stopped it.
+	if expectBubble && ex.trigFault == "" {
 		for i := ex.start; i < len(evs); i++ {
 			e := evs[i]
 			if e.Call == "BeginEdit" && e.Root && e.Source == e.Node && e.Err == "" {
 				w := ex.ss.Nodes[e.Node]
-				j := i + 1
-				for p := w.Parent; p != nil; p = p.Parent {
-					if j >= len(evs) {
-						break // run ended (fault)
-					}
+				told := map[int]bool{}
+				failed := false
+				for j := i + 1; j < len(evs); j++ {
 					n := evs[j]
-					if n.Call != "BeginEdit" || n.Node != p.ID || n.Source != w.ID {
-						add("audience", "ancestor-not-told", fmt.Sprintf("after %s the ancestor #%d was not told BeginEdit (next callback: %s)", e, p.ID, n))
+					if n.Call == "BeginEdit" && n.Source == w.ID && n.Node != w.ID {
+						if n.Err != "" {
+							failed = true
+						}
+						told[n.Node] = true
+					}
+					if n.Call == "EndEdit" && n.Node == w.ID && n.Source == w.ID {
 						break
 					}
-					if n.Err != "" {
+				}
+				if failed {
+					continue
+				}
+				for p := w.Parent; p != nil; p = p.Parent {
+					if !told[p.ID] {
+						add("audience", "ancestor-not-told", fmt.Sprintf("after %s the ancestor #%d was never told BeginEdit", e, p.ID))
 						break
 					}
-					j++
 				}
 			}
 		}
@@ -340,7 +380,8 @@ func c12Gen(r *kit.Rng) *c12Scenario {
 	if mode != "from" && mode != "into" {
 		op.Tree, op.List = nil, nil
 	}
-	return &c12Scenario{Schema: s, Store: sk, Init: init, Op: op, Mode: mode, Extend: mode == "from" && r.Chance(1, 4)}
+	return &c12Scenario{Schema: s, Store: sk, Init: init, Op: op, Mode: mode, Extend: mode == "from" && r.Chance(1, 4),
+		Trigger: (mode == "from" || mode == "into") && r.Chance(1, 5)}
 }
 
 func c12Kinds(e simnode.Event) []simnode.FaultKind {
@@ -416,6 +457,24 @@ func c12Explore(sc *c12Scenario, seed uint64, pairs int, r *kit.Rng) (out RunOut
 			out.Prints = append(out.Prints, ex.log.Hash())
 			for _, f := range c12Oracle(&ex, expectBubble) {
 				out.Violations = append(out.Violations, mk(&ex, f, faults))
+			}
+		}
+	}
+	// a failing trigger at every one of its calls
+	if sc.Trigger {
+		out.Stats.Inc("probe:trigger-installed")
+		for k := 1; k <= base.trigCalls && k <= 60; k++ {
+			s2 := *sc
+			s2.TrigFail = k
+			ex := c12Run(env, &s2, nil)
+			out.Evals++
+			out.Steps += int64(len(ex.ss.Events))
+			out.Stats.Inc("fault:" + ex.trigFault)
+			out.Prints = append(out.Prints, ex.log.Hash())
+			for _, f := range c12Oracle(&ex, expectBubble) {
+				v := mk(&ex, f, nil)
+				v.Scenario = sess.MarshalScenario(&s2)
+				out.Violations = append(out.Violations, v)
 			}
 		}
 	}
